@@ -29,7 +29,8 @@ def concrete(kind, rnd):
         a, b = pairs.near_background(rnd)
         return (a, b)
     if kind == "badtext":
-        return (rnd.choice(["notacolor", (300, 0, 0), "rgb(1,2", "", None, "#12", (1, 2)]), "#ffffff")
+        return (rnd.choice(["notacolor", (300, 0, 0), "rgb(1,2", "", None, "#12", (1, 2), "#777777;", "grey ;", "rgb(119, 119, 119);",
+                            "#777 !important", "white;"]), "#ffffff")
     if kind == "badbg":
         return ("#123456", rnd.choice(["nope", (0, 0, -1), "hsl(", 5 if False else "##"]))
     if kind == "translucent":
@@ -39,6 +40,9 @@ def concrete(kind, rnd):
         g = rnd.randrange(70, 190)
         a = rnd.choice([(0, 0, 0), (255, 255, 255)])
         return rnd.choice([(a, (g, g, g)), (pairs.hexs(a), pairs.hexs((g, g, g)))])
+    if kind == "digits":       # hex without '#', written with decimal digits <= 255: the ENTRY (text, bg, flag) is itself a valid colour tuple
+        d = lambda: rnd.choice(["123", "255", "012", "200", "111", "099", "250", "135"])
+        return (d(), d())
     if kind == "twinA":        # == but different colours: int channels are 0..255, floats in [0,1] are normalised
         return rnd.choice([((1, 1, 1), (1.0, 1.0, 1.0)), ((1, 1, 1), "#ffffff"), ((120, 1, 1), (255, 255, 255)), ((0, 1, 0), (1.0, 1.0, 1.0))])
     if kind == "twinB":
@@ -107,8 +111,10 @@ def main():
     # lists that certainly contain hash-equal twins / hairline results
     twin = [l for l in lists if {"twinA", "twinB"} <= {e[0] for e in l}]
     hair = [l for l in lists if any(e[0] == "hairres" for e in l)]
+    dig = [l for l in lists if len(l) >= 2 and l[0][0] == "digits" and l[1][0] == "digits" and l[0][1] != 2 and l[1][1] != 2]
+    chosen += rnd.sample(dig, min(len(dig), 25 if t == "quick" else 300))
     chosen += rnd.sample(twin, min(len(twin), 40 if t == "quick" else 600)) + rnd.sample(hair, min(len(hair), 60 if t == "quick" else 900))
-    kinds = ["pass", "fixable", "between", "unfixable", "badtext", "badbg", "translucent", "hsl", "extreme", "twinA", "twinB", "hairres"]
+    kinds = ["pass", "fixable", "between", "unfixable", "badtext", "badbg", "translucent", "hsl", "extreme", "twinA", "twinB", "hairres", "digits"]
     for _ in range(30 if t == "quick" else 600):     # longer lists
         chosen.append(tuple((rnd.choice(kinds), rnd.choice((2, 3, 4))) for _ in range(rnd.randrange(4, 13))))
     jobs = [(l, k % 3, bool((k // 3) & 1), rnd.randrange(1 << 30)) for k, l in enumerate(chosen)]
